@@ -12,6 +12,12 @@ Definition is_draw (op : sop) : bool :=
 
 Definition draws_only (ops : list sop) : bool := forallb is_draw ops.
 
+(* requests that need no other stream of the store *)
+Definition is_local (op : sop) : bool :=
+  match op with RestoreFrom _ _ => false | _ => true end.
+
+Definition local_only (ops : list sop) : bool := forallb is_local ops.
+
 Fixpoint nsaves (ops : list sop) : nat :=
   match ops with
   | [] => O
@@ -28,6 +34,7 @@ Fixpoint replayable (d : nat) (ops : list sop) : bool :=
   | Save :: r => replayable (S d) r
   | Restore k :: r => Nat.ltb k d && replayable d r
   | QOrig :: r => false
+  | RestoreFrom _ _ :: r => false
   | _ :: r => replayable d r
   end.
 
@@ -246,14 +253,32 @@ Section Proofs.
   Lemma sstep_frame st iop i : i <> fst iop ->
     nth_error (fst (sstep st iop)) i = nth_error st i.
   Proof.
-    intros H. unfold Stream.sstep. destruct (nth_error st (fst iop)) as [m|]; [|reflexivity].
-    destruct (step m (snd iop)) as [m' o]. cbn. apply nth_error_upd_other. exact H.
+    intros H. unfold Stream.sstep.
+    assert (Hloc : nth_error (fst match nth_error st (fst iop) with
+                   | Some m => let '(m', o) := step m (snd iop) in (upd st (fst iop) m', o)
+                   | None => (st, ORaise ENoStream) end) i = nth_error st i).
+    { destruct (nth_error st (fst iop)) as [m|]; [|reflexivity].
+      destruct (step m (snd iop)) as [m' o]. cbn. apply nth_error_upd_other. exact H. }
+    destruct (snd iop); try exact Hloc.
+    destruct (nth_error st (fst iop)) as [m|]; [|reflexivity].
+    destruct (nth_error st j) as [mj|]; [|reflexivity].
+    destruct (nth_error (saved mj) k); [|reflexivity].
+    cbn. apply nth_error_upd_other. exact H.
   Qed.
 
   Lemma sstep_length st iop : length (fst (sstep st iop)) = length st.
   Proof.
-    unfold Stream.sstep. destruct (nth_error st (fst iop)) as [m|]; [|reflexivity].
-    destruct (step m (snd iop)) as [m' o]. cbn. apply upd_length.
+    unfold Stream.sstep.
+    assert (Hloc : length (fst match nth_error st (fst iop) with
+                   | Some m => let '(m', o) := step m (snd iop) in (upd st (fst iop) m', o)
+                   | None => (st, ORaise ENoStream) end) = length st).
+    { destruct (nth_error st (fst iop)) as [m|]; [|reflexivity].
+      destruct (step m (snd iop)) as [m' o]. cbn. apply upd_length. }
+    destruct (snd iop); try exact Hloc.
+    destruct (nth_error st (fst iop)) as [m|]; [|reflexivity].
+    destruct (nth_error st j) as [mj|]; [|reflexivity].
+    destruct (nth_error (saved mj) k); [|reflexivity].
+    cbn. apply upd_length.
   Qed.
 
   Lemma srun_cons st iop r :
@@ -272,29 +297,41 @@ Section Proofs.
     destruct (run m1 r); reflexivity.
   Qed.
 
-  Lemma sstep_at st i op m : nth_error st i = Some m ->
+  Lemma sstep_at st i op m : is_local op = true -> nth_error st i = Some m ->
     sstep st (i, op) = (upd st i (fst (step m op)), snd (step m op)).
   Proof.
-    intros H. unfold Stream.sstep. cbn [fst snd]. rewrite H.
-    destruct (step m op); reflexivity.
+    intros Hl H. unfold Stream.sstep. cbn [fst snd].
+    destruct op; try discriminate; rewrite H; cbn [fst snd];
+      try reflexivity; destruct (step m _); reflexivity.
   Qed.
 
+  (* a state saved by stream j, restored into stream i *)
+  Lemma sstep_cross st i j k m mj g :
+    nth_error st i = Some m -> nth_error st j = Some mj -> nth_error (saved mj) k = Some g ->
+    sstep st (i, RestoreFrom j k) = (upd st i (mkS g (cur m) (orig m) (saved m)), ONone).
+  Proof. intros Hi Hj Hk. unfold Stream.sstep. cbn [fst snd]. rewrite Hi, Hj, Hk. reflexivity. Qed.
+
   (* What stream i returns, and the state it ends in, is what it would return
-     and end in if its own operations were applied to it alone. *)
+     and end in if its own operations were applied to it alone - whatever the
+     other streams are asked to do, including restoring states saved by stream
+     i.  (Stream i itself is not asked to take over a state of another stream:
+     [local_only].) *)
   Theorem streams_independent ops : forall st i m, nth_error st i = Some m ->
+    local_only (proj i ops) = true ->
     sel i ops (snd (srun st ops)) = snd (run m (proj i ops)) /\
     nth_error (fst (srun st ops)) i = Some (fst (run m (proj i ops))).
   Proof.
-    induction ops as [|[j op] r IH]; intros st i m Hm; [cbn; auto|].
-    rewrite srun_cons. cbn [proj sel fst snd].
+    induction ops as [|[j op] r IH]; intros st i m Hm Hloc; [cbn; auto|].
+    rewrite srun_cons. cbn [proj sel fst snd]. cbn [proj] in Hloc.
     destruct (Nat.eqb j i) eqn:E.
     - apply Nat.eqb_eq in E. subst j.
-      rewrite (sstep_at st i op m Hm). cbn [fst snd]. rewrite run_cons. cbn [fst snd].
+      cbn [local_only forallb] in Hloc. apply andb_true_iff in Hloc as [Hop Hloc].
+      rewrite (sstep_at st i op m Hop Hm). cbn [fst snd]. rewrite run_cons. cbn [fst snd].
       destruct (IH (upd st i (fst (step m op))) i (fst (step m op))
-                   (nth_error_upd_same st i m _ Hm)) as [-> ->]. auto.
+                   (nth_error_upd_same st i m _ Hm) Hloc) as [-> ->]. auto.
     - apply Nat.eqb_neq in E.
       pose proof (sstep_frame st (j, op) i (fun H => E (eq_sym H))) as Hf.
-      rewrite Hm in Hf. exact (IH _ i m Hf).
+      rewrite Hm in Hf. exact (IH _ i m Hf Hloc).
   Qed.
 
   (* frame: a history that never addresses stream i leaves it as it was *)
@@ -303,6 +340,7 @@ Section Proofs.
     nth_error (fst (srun st ops)) i = Some m.
   Proof.
     intros Hm Hp. destruct (streams_independent ops st i m Hm) as [_ H].
+    { rewrite Hp. reflexivity. }
     rewrite Hp in H. exact H.
   Qed.
 
@@ -310,11 +348,13 @@ Section Proofs.
      they do to the other streams *)
   Corollary other_streams_do_not_matter ops1 ops2 st1 st2 i m :
     nth_error st1 i = Some m -> nth_error st2 i = Some m -> proj i ops1 = proj i ops2 ->
+    local_only (proj i ops1) = true ->
     sel i ops1 (snd (srun st1 ops1)) = sel i ops2 (snd (srun st2 ops2)).
   Proof.
-    intros H1 H2 Hp.
-    destruct (streams_independent ops1 st1 i m H1) as [-> _].
-    destruct (streams_independent ops2 st2 i m H2) as [-> _].
+    intros H1 H2 Hp Hl.
+    destruct (streams_independent ops1 st1 i m H1 Hl) as [-> _].
+    rewrite Hp in Hl.
+    destruct (streams_independent ops2 st2 i m H2 Hl) as [-> _].
     rewrite Hp. reflexivity.
   Qed.
 
@@ -322,20 +362,39 @@ Section Proofs.
      arbitrarily interleaved with each other and with other streams *)
   Theorem twin_streams_equal ops st i j m :
     nth_error st i = Some m -> nth_error st j = Some m -> proj i ops = proj j ops ->
+    local_only (proj i ops) = true ->
     sel i ops (snd (srun st ops)) = sel j ops (snd (srun st ops)).
   Proof.
-    intros Hi Hj Hp.
-    destruct (streams_independent ops st i m Hi) as [-> _].
-    destruct (streams_independent ops st j m Hj) as [-> _].
+    intros Hi Hj Hp Hl.
+    destruct (streams_independent ops st i m Hi Hl) as [-> _].
+    rewrite Hp in Hl.
+    destruct (streams_independent ops st j m Hj Hl) as [-> _].
     rewrite Hp. reflexivity.
   Qed.
 
   Corollary twin_fresh_streams_equal ops seeds i j s :
     nth_error seeds i = Some s -> nth_error seeds j = Some s -> proj i ops = proj j ops ->
+    local_only (proj i ops) = true ->
     sel i ops (snd (srun (map fresh seeds) ops)) = sel j ops (snd (srun (map fresh seeds) ops)).
   Proof.
     intros Hi Hj. apply twin_streams_equal with (m := fresh s);
       apply map_nth_error; assumption.
+  Qed.
+
+  (* restoring into stream i a state saved by stream j: the draws that follow are
+     the draws that followed the save on stream j (they read the generator from
+     the saved seed and position on) *)
+  Theorem cross_restore_continues st i j k mi mj g ds :
+    nth_error st i = Some mi -> nth_error st j = Some mj -> nth_error (saved mj) k = Some g ->
+    draws_only ds = true ->
+    exists mi', nth_error (fst (sstep st (i, RestoreFrom j k))) i = Some mi' /\
+      snd (sstep st (i, RestoreFrom j k)) = ONone /\
+      cur mi' = cur mi /\ orig mi' = orig mi /\
+      snd (run mi' ds) = draw_outs (gseed g) (gpos g) ds.
+  Proof.
+    intros Hi Hj Hk Hd. rewrite (sstep_cross st i j k mi mj g Hi Hj Hk). cbn [fst snd].
+    eexists. split; [eapply nth_error_upd_same; exact Hi|].
+    repeat split. rewrite (draws_read_consecutive ds _ Hd). reflexivity.
   Qed.
 
   (* ---------- ranges ---------- *)
@@ -364,7 +423,9 @@ Section Proofs.
     rewrite srun_cons. cbn [snd]. inversion Hv as [|x y Hi Hr]; subst. cbn [fst] in Hi.
     specialize (IH (fst (sstep st (i, op)))). rewrite sstep_length in IH. specialize (IH Hr).
     destruct (nth_error st i) as [m|] eqn:E; [|apply nth_error_None in E; lia].
-    rewrite (sstep_at st i op m E) in *. cbn [fst snd] in *.
+    destruct (is_local op) eqn:Hloc.
+    2: { destruct op; try discriminate. cbn [floats_in_unit]. exact IH. }
+    rewrite (sstep_at st i op m Hloc E) in *. cbn [fst snd] in *.
     destruct op; cbn [floats_in_unit]; try exact IH.
     split; [|exact IH]. cbn. eexists; split; [reflexivity|apply raw_unit].
   Qed.
@@ -380,8 +441,10 @@ Section Proofs.
     rewrite srun_cons. cbn [snd].
     specialize (IH (fst (sstep st (i, op)))).
     set (os := snd (srun (fst (sstep st (i, op))) r)) in *. clearbody os.
+    destruct (is_local op) eqn:Hloc.
+    2: { destruct op; try discriminate. destruct (snd (sstep st (i, RestoreFrom j k))); exact IH. }
     destruct (nth_error st i) as [m|] eqn:E.
-    - rewrite (sstep_at st i op m E). cbn [snd].
+    - rewrite (sstep_at st i op m Hloc E). cbn [snd].
       destruct op; cbn [ints_in_range Stream.step draw snd]; try exact IH.
       destruct (nint lo hi (raw (gseed (gen m)) (gpos (gen m)))) eqn:En; try exact IH.
         rewrite IH, andb_true_r.
@@ -413,7 +476,9 @@ Section Proofs.
     rewrite srun_cons. cbn [snd]. inversion Hv as [|x y Hi Hr]; subst. cbn [fst] in Hi.
     specialize (IH (fst (sstep st (i, op)))). rewrite sstep_length in IH. specialize (IH Hr).
     destruct (nth_error st i) as [m|] eqn:E; [|apply nth_error_None in E; lia].
-    rewrite (sstep_at st i op m E) in *. cbn [fst snd] in *.
+    destruct (is_local op) eqn:Hloc.
+    2: { destruct op; try discriminate. cbn [ints_answered]. exact IH. }
+    rewrite (sstep_at st i op m Hloc E) in *. cbn [fst snd] in *.
     destruct op; cbn [ints_answered]; try exact IH.
     split; [|exact IH]. intros Hl. cbn. apply nint_total; [exact Hl|apply raw_unit].
   Qed.
